@@ -43,7 +43,7 @@ func checkC22(r *Run) {
 		return []octosql.Value{intv(1 + t.Draw(dom)), intv(t.Draw(2))}
 	}
 	script := GenChangelog(t.Block(stepBlock*maxSteps+10), ChangelogCfg{MaxSteps: maxSteps, Watermarked: watermarked, Retractions: true, Dups: true,
-		Row: row, FinalWM: true, ZeroTimeMix: true})
+		Row: row, FinalWM: true, ZeroTimeMix: true, RepeatWM: true})
 	attrs := map[string]string{"node": "InternallyConsistentOutputStreamWrapper"}
 	r.Log("watermarked=%v", watermarked)
 	r.Log("in: %s", ScriptString(script))
